@@ -261,6 +261,49 @@ def w_indent(case):
     return res
 
 
+def w_several(case):
+    """two or three programs listed by one invocation: the output is the concatenation of the stand-alone listings"""
+    res = mkres()
+    try:
+        dialect = case['dialect']
+        d = run.scratch()
+        for seqs in case['groups']:
+            for listo in case['listos']:
+                texts, progs = [], []
+                for seq in seqs:
+                    lines = [(10 * (i + 1), SHAPES[s]) for i, s in enumerate(seq)]
+                    st, text = R.listing(dialect, lines, listo)
+                    if st != R.WELL:
+                        break
+                    texts.append(text)
+                    progs.append(R.frame(dialect, lines))
+                else:
+                    names = []
+                    for i, pr in enumerate(progs):
+                        names.append(dfsrun.write(d, 'p%d.bbc' % i, pr))
+                    args = ['--dialect', dialect, '--listo', str(listo)]
+                    for how in ('files', 'last-on-stdin'):
+                        if how == 'files':
+                            r = dfsrun.basic(BIN, args + names, cwd=d)
+                        else:
+                            r = dfsrun.basic(BIN, args + names[:-1] + ['-'], cwd=d, stdin=progs[-1])
+                        res['n'] += 1
+                        if r.status() != 'exit0' or r.err or r.out != b''.join(texts):
+                            res['out']['bad'] = res['out'].get('bad', 0) + 1
+                            res['viol'].append(('C03:several-inputs:%s' % ('fail' if r.status() != 'exit0' else 'text'),
+                                                'dialect=%s listo=%d %s, programs %s: got %r want %r' % (dialect, listo, how, seqs, r.out[:150], b''.join(texts)[:150])))
+                        else:
+                            res['out']['ok'] = res['out'].get('ok', 0) + 1
+            res['nt'].append((R.CANON[dialect], tuple(map(tuple, seqs))))
+        if res['viol']:
+            res['case'] = case
+    except Exception:
+        import traceback
+        res['viol'].append(('HARNESS', traceback.format_exc()))
+        res['case'] = case
+    return res
+
+
 def deframe(dialect, data):
     """Inverse of frame for the repository's golden inputs (reference-side parser)."""
     lines = []
@@ -331,7 +374,7 @@ def w_golden(case):
 
 def worker(case):
     return {'bytes': w_bytes, 'triples': w_triples, 'linenum': w_linenum, 'numbers': w_numbers,
-            'indent': w_indent, 'golden': w_golden}[case['w']](case)
+            'indent': w_indent, 'golden': w_golden, 'several': w_several}[case['w']](case)
 
 
 # ---------------------------------------------------------------------------- families
@@ -419,7 +462,20 @@ def fam_l6(tier):
                    'seqs': seqs[i:i + 200], 'listos': list(range(8)) if tier == 'thorough' or di == 0 else [7, 2, 4]}
 
 
-FAMILIES = [('G-golden-crosscheck', fam_golden), ('L1-single-bytes', fam_l1), ('L5-line-numbers-lengths', fam_l5),
+def fam_l7(tier):
+    """two (and selected three) programs in one invocation, each every loop-shape sequence of <=2 lines (so programs that end inside open FOR/REPEAT loops come first, in the middle and last): output = concatenation of the stand-alone listings, files and file+stdin"""
+    shapes = ['FOR', 'FOR2', 'REPEAT', 'FORREP', 'PLAIN', 'NEXT', 'UNTIL']
+    progs = [s for k in (1, 2) for s in itertools.product(shapes, repeat=k) if R.listing('6502', [(1, SHAPES[x]) for x in s], 7)[0] == R.WELL]
+    groups = [[a, b] for a in progs for b in progs]
+    groups += [[a, b, c] for a in progs[:6] for b in progs[:6] for c in progs[:3]]
+    dialects = ['6502', 'Z80'] if tier == 'quick' else R.DISTINCT
+    for dialect in dialects:
+        for i in range(0, len(groups), 60):
+            yield {'w': 'several', 'dialect': dialect, 'groups': [[list(x) for x in g] for g in groups[i:i + 60]],
+                   'listos': [7, 0] if tier == 'quick' else [7, 2, 4, 1, 0]}
+
+
+FAMILIES = [('L7-several-programs-per-invocation', fam_l7), ('G-golden-crosscheck', fam_golden), ('L1-single-bytes', fam_l1), ('L5-line-numbers-lengths', fam_l5),
             ('L4-line-number-references', fam_l4), ('L3-class-triples', fam_l3), ('L6-loop-indentation', fam_l6),
             ('L2-byte-pairs', fam_l2)]
 
